@@ -4,6 +4,7 @@ package main
 // reflect's unsafe code is never executed.
 
 import (
+	"math"
 	"fmt"
 	"go/types"
 	"reflect"
@@ -283,6 +284,13 @@ func init() {
 	// ---- Value methods ----
 	R("(reflect.Value).Kind", func(e *Exec, _ *frame, a []Value) Value { return int64(kindOf(rv(a[0]).t)) })
 	R("(reflect.Value).IsValid", func(e *Exec, _ *frame, a []Value) Value { return rv(a[0]).t != nil })
+	R("(reflect.Value).IsZero", func(e *Exec, fr *frame, a []Value) Value {
+		r := rv(a[0])
+		if r.t == nil {
+			e.valueErrorPanic("reflect.Value.IsZero", reflect.Invalid)
+		}
+		return e.isZeroValue(r.v)
+	})
 	R("(reflect.Value).CanInt", func(e *Exec, _ *frame, a []Value) Value {
 		switch kindOf(rv(a[0]).t) {
 		case reflect.Int, reflect.Int8, reflect.Int16, reflect.Int32, reflect.Int64:
@@ -1178,4 +1186,61 @@ func (e *Exec) structFieldAt(t types.Type, path []int, ft types.Type) Value {
 		cur = u.Field(i).Type()
 	}
 	return e.zero(e.w.structFieldT)
+}
+
+
+// isZeroValue: reflect.Value.IsZero on the engine's value representation (symbolic scalars are
+// decided through the solver, forking).
+func (e *Exec) isZeroValue(v Value) bool {
+	switch v := v.(type) {
+	case nil:
+		return true
+	case bool:
+		return !v
+	case int64:
+		return v == 0
+	case float64:
+		return v == 0 && !math.Signbit(v)
+	case Sym:
+		tt := e.tt
+		var c *Term
+		switch {
+		case v.t.sort.K == SBool:
+			c = tt.Not(v.t)
+		case v.t.sort.K == SFP64 || v.t.sort.K == SFP32:
+			// +0 only: IsZero looks at the bits
+			c = tt.And(tt.FPPred("fp.isZero", v.t), tt.Not(tt.FPPred("fp.isNegative", v.t)))
+		default:
+			c = tt.Eq(v.t, tt.BV(0, v.t.sort.W))
+		}
+		return e.path.branch(e, c, "reflect.IsZero")
+	case Str:
+		return v.Len() == 0
+	case Ptr:
+		return v.p == nil
+	case Slice:
+		return v.arr == nil
+	case *MapObj:
+		return v == nil
+	case Iface:
+		return v.t == nil
+	case *Closure:
+		return v == nil
+	case Struct:
+		for _, c := range v {
+			if !e.isZeroValue(c) {
+				return false
+			}
+		}
+		return true
+	case Array:
+		for _, c := range v {
+			if !e.isZeroValue(c) {
+				return false
+			}
+		}
+		return true
+	}
+	unsupported("reflect.Value.IsZero on %T", v)
+	return false
 }
